@@ -1,6 +1,6 @@
 (* C20 -- legacy {...} patterns render, read back and increase consistently. *)
 From Coq Require Import List Bool NArith ZArith.
-From BV Require Import Lib.PyStr Model.V2 Model.Cli Model.V1 Model.CliAll Proofs.ConfigFacts.
+From BV Require Import Lib.PyStr Model.V2 Model.Cli Model.V1 Model.CliAll Proofs.DispatchFacts.
 Import ListNotations.
 Local Open Scope N_scope.
 
